@@ -26,6 +26,7 @@ CONSTANTS
   VetoPool,   \* subset of BOOLEAN : arm the vetoing entity constraint for the call
   PrePool,    \* subset of {"ok", "fail"} : pre-commit actions to add
   CountPool,  \* counts for SetLinkCount
+  MaxRc,      \* bound on a reference count (rcInc is not generated beyond it)
   IdOrder     \* the ids in the byte order of their real spellings (cascade visits referrers in this order)
 
 VARIABLES db, txn, last, ntx
@@ -42,6 +43,7 @@ Init == /\ db = InitDb
 Persons(id) == [ name : NamePool \cup (IF IdNames THEN {id} ELSE {}), nick : NickPool, roles : RolePool,
                  boss : BossPool, team : TeamPool, sys : SysPool ]
 Exts == [lead : LeadPool, grade : GradePool]
+DummyExt == [lead |-> FALSE, grade |-> ""]     \* the child part is not looked at when the call goes through the parent store
 
 InTx  == txn.open /\ txn.nops < MaxOps
 
@@ -115,6 +117,7 @@ TxLink1(name, p, t) ==      \* addLink / removeLink (single, reports "changed")
 
 TxRc(name, p, t, c) ==      \* rcInc / rcDec / rcSet
   /\ name \in Ops /\ InTx
+  /\ (name = "rcInc" => db.rcPT[p][t] < MaxRc)
   /\ Call(CASE name = "rcInc" -> RcIncP(db, p, t) [] name = "rcDec" -> RcDecP(db, p, t) [] name = "rcSet" -> RcSetP(db, p, t, c),
           [op |-> name, a |-> [id |-> p, key |-> t, count |-> c]])
   /\ UNCHANGED ntx
@@ -152,8 +155,10 @@ Commit ==
 
 Next ==
   \/ \E k \in TxKinds, s \in SysCtxs : Begin(k, s)
-  \/ \E via \in Vias, id \in Ids, x \in Exts, lt \in LtPool, veto \in VetoPool : \E p \in Persons(id) : TxCreate(via, id, p, x, lt, veto)
-  \/ \E via \in Vias, id \in Ids, x \in Exts, lt \in LtPool, f \in FieldSets, veto \in VetoPool : \E p \in Persons(id) : TxUpdate(via, id, p, x, lt, f, veto)
+  \/ \E via \in Vias, id \in Ids, lt \in LtPool, veto \in VetoPool : \E p \in Persons(id) :
+        \E x \in (IF via = "staff" THEN Exts ELSE {DummyExt}) : TxCreate(via, id, p, x, lt, veto)
+  \/ \E via \in Vias, id \in Ids, lt \in LtPool, f \in FieldSets, veto \in VetoPool : \E p \in Persons(id) :
+        \E x \in (IF via = "staff" THEN Exts ELSE {DummyExt}) : TxUpdate(via, id, p, x, lt, f, veto)
   \/ \E via \in Vias, id \in Ids, veto \in VetoPool : TxDelete(via, id, veto)
   \/ \E t \in Teams : TxCreateTeam(t) \/ TxDeleteTeam(t)
   \/ \E n \in {"addLinks", "removeLinks", "setLinks"}, p \in Ids, ts \in SUBSET Teams : TxLinks(n, p, ts)
@@ -171,7 +176,10 @@ Spec == Init /\ [][Next]_vars
 -----------------------------------------------------------------------------
 (* Properties                                                              *)
 
-ViewNoObs == <<db, txn>>      \* VIEW: `last` is observation only; `ntx` only bounds generated behaviours
+\* VIEWs: `last` is observation only; `ntx` only bounds generated behaviours; the pending events of the open
+\* transaction matter only for what Commit delivers (kept by ViewEvs, used by the C08 configuration)
+ViewNoObs == <<db, [txn EXCEPT !.evs = << >>]>>
+ViewEvs   == <<db, txn>>
 
 \* C03 C04 C05 C06 C15: the explicit indexes / back-references / link sides always mirror the entities,
 \* call by call (the code maintains them inside each call) and in particular in every committed state
